@@ -5,6 +5,7 @@ the same name and first line is located in inspect.getsourcefile(f) and its body
 """
 import ast
 import copy
+import functools
 import builtins
 import inspect
 import numbers
@@ -14,7 +15,7 @@ import collections
 import z3
 
 from .values import (Sym, SInt, SBool, SReal, SStr, SSeq, Cell, Obj, ExcVal, Bound, Closure, GenObj, Opaque,
-                     Unsupported, PyRaise, py_raise, is_sym, has_sym, zi, zb, zr, zs, zseq, INT_EK,
+                     Unsupported, Infeasible, PyRaise, py_raise, is_sym, has_sym, zi, zb, zr, zs, zseq, INT_EK,
                      is_intlike, is_numlike, IntSeq)
 from .ctx import CutPath
 from . import dsl
@@ -128,6 +129,27 @@ def mro_lookup(cls, name):
         if name in k.__dict__:
             return k, k.__dict__[name]
     return None, None
+
+
+_MUTABLE_GLOBALS = {}
+
+
+def mutable_globals(g):
+    """names of module-level variables that some function of the module assigns (`global x`): the module's mutable state"""
+    k = id(g)
+    if k not in _MUTABLE_GLOBALS:
+        names = set()
+        try:
+            import sys as _sys
+            mod = _sys.modules.get(g.get('__name__'))
+            tree = ast.parse(inspect.getsource(mod))
+            for n in ast.walk(tree):
+                if isinstance(n, ast.Global):
+                    names.update(n.names)
+        except Exception:
+            pass
+        _MUTABLE_GLOBALS[k] = names
+    return _MUTABLE_GLOBALS[k]
 
 
 class AliasEnv(dict):
@@ -321,6 +343,8 @@ class Interp:
             return self.call(f.__func__, args, kwargs)
         if isinstance(f, Closure):
             return self.call_closure(f, args, kwargs)
+        if isinstance(f, functools._lru_cache_wrapper) and is_repo_fn(getattr(f, '__wrapped__', None)):
+            return self.call_memoised(f.__wrapped__, args, kwargs)
         key = getattr(f, '__wrapped__', f) if isinstance(f, types.FunctionType) else f
         try:
             h = self.hooks.get(key) if self.hooks else None
@@ -346,6 +370,47 @@ class Interp:
         if callable(f) and not has_sym(args) and not has_sym(kwargs):
             return self.native(f, args, kwargs)
         raise Unsupported('call to %r with symbolic arguments' % (f,))
+
+    def call_memoised(self, fn, args, kwargs):
+        """a function behind functools.lru_cache: the value returned is the one computed now, OR one cached by an earlier call
+        with equal arguments made under ANOTHER value of the module state the function reads (a cache keyed by the
+        arguments alone does not notice that state).  A function that reads no mutable module state is transparent.
+        Not modelled: keys that are equal but of different types (1 == 1.0); raised exceptions are never cached."""
+        track, old = [], getattr(self, '_greads', None)
+        self._greads = track
+        try:
+            r_now = self.call(fn, list(args), dict(kwargs))
+        finally:
+            self._greads = old
+        keys = {}
+        for k, g in track:
+            keys[k] = g
+        if not keys or self.ctx.fork(2) == 0:
+            return r_now
+        missing = object()
+        saved = {}
+        for k, g in keys.items():
+            cur = self.ctx.gstore.get(k, g.get(k[1], missing))
+            saved[k] = self.ctx.gstore.get(k, missing)
+            if isinstance(cur, (str, SStr)):
+                self.ctx.gstore[k] = SStr(self.ctx.fresh('earlier_' + k[1], z3.StringSort()))
+            elif isinstance(cur, (bool, SBool)):
+                self.ctx.gstore[k] = SBool(self.ctx.fresh('earlier_' + k[1], z3.BoolSort()))
+            elif isinstance(cur, (int, SInt)):
+                self.ctx.gstore[k] = SInt(self.ctx.fresh('earlier_' + k[1]))
+            else:
+                raise Unsupported('memoised function reads module state %s of a kind the model cannot vary' % k[1])
+        try:
+            try:
+                return self.call(fn, list(args), dict(kwargs))
+            except PyRaise:
+                raise Infeasible()           # nothing was cached by a call that raised
+        finally:
+            for k, v in saved.items():
+                if v is missing:
+                    self.ctx.gstore.pop(k, None)
+                else:
+                    self.ctx.gstore[k] = v
 
     def native(self, f, args, kwargs):
         mod = getattr(f, '__module__', None) or ''
@@ -1321,6 +1386,8 @@ class Interp:
         if e.id in fr.env and e.id not in fr.globals_declared:
             return fr.env[e.id]
         key = (id(fr.g), e.id)
+        if getattr(self, '_greads', None) is not None and e.id in mutable_globals(fr.g):
+            self._greads.append((key, fr.g))
         if key in self.ctx.gstore:
             return self.ctx.gstore[key]
         if e.id in fr.g:
